@@ -400,6 +400,56 @@ def ownership_oracle(rng):
     return fails
 
 
+def elementary_ownership_oracle(rng):
+    """'a fitted model owns its state' for every elementary module and every learning-rate setting (fast learning beta = 1
+    included): after fit / partial_fit the caller overwrites its training array in place; weights, centres and
+    predictions of the model are as before"""
+    import kernfam
+    kind = rng.choice(kernfam.KINDS)
+    d = rng.choice([2, 3])
+    p = kernfam.gen_params(rng, kind, d)
+    if "beta" in p and rng.random() < 0.6:
+        p["beta"] = 1.0
+    if kind in ("Fuzzy", "Hyper", "Ellip") and p["alpha"] == 0.0:
+        p["alpha"] = 1e-3
+    if kind == "ART1" and p["L"] == 1.0:
+        p["L"] = 2.0
+    X = np.asarray(kernfam.gen_data(rng, kind, rng.randrange(6, 16), d), dtype=float)
+    # duplicates make samples resonate with existing categories (the update path, not only new_weight)
+    X = np.vstack([X, X[[rng.randrange(len(X)) for _ in range(4)]]])
+    how = rng.choice(["fit", "partial_fit x2", "SimpleARTMAP.fit"])
+    repd = {"module": kind, "params": {k_: (np.asarray(v_).tolist() if isinstance(v_, np.ndarray) else v_) for k_, v_ in p.items()}, "X": X.tolist(), "how": how}
+    try:
+        import artlib
+        m = kernfam.make(kind, p)
+        est = artlib.SimpleARTMAP(m) if how == "SimpleARTMAP.fit" else m
+        Xc = X.copy()
+        with np.errstate(all="ignore"):
+            if how == "fit":
+                est.fit(Xc)
+            elif how == "partial_fit x2":
+                h = len(Xc) // 2
+                est.partial_fit(Xc[:h]); est.partial_fit(Xc[h:])
+            else:
+                est.fit(Xc, np.array([rng.randrange(2) for _ in range(len(Xc))]))
+            Q = X[:6].copy()
+            Wb = [np.array(w, dtype=float).copy() for w in m.W]
+            pb = [int(v) for v in np.asarray(est.predict(Q)).ravel()]
+            # the caller re-uses its buffer (valid values of the same kind: a cyclic shift of the rows, then a constant row)
+            Xc[:] = np.roll(X, 3, axis=0)
+            Xc[:] = X[0]
+            Wa = [np.array(w, dtype=float) for w in m.W]
+            pa = [int(v) for v in np.asarray(est.predict(Q)).ravel()]
+        if len(Wa) != len(Wb) or any(not np.array_equal(a, b, equal_nan=True) for a, b in zip(Wa, Wb)):
+            j = [i for i, (a, b) in enumerate(zip(Wa, Wb)) if not np.array_equal(a, b, equal_nan=True)][:3]
+            return [rep(kind, "weights-follow-the-callers-array", dict(repd, categories_that_changed=j))]
+        if pa != pb:
+            return [rep(kind, "predictions-follow-the-callers-array", repd)]
+    except Exception:
+        return []        # totality is C04's business
+    return []
+
+
 def main():
     tier = sys.argv[1] if len(sys.argv) > 1 else "quick"
     seed = C.seed_from_env()
@@ -415,6 +465,7 @@ def main():
     for _ in range(m):
         fails.extend(twins_oracle(rng))
         fails.extend(ownership_oracle(rng))
+        fails.extend(elementary_ownership_oracle(rng))
     codes, bad = flow.coq_corr("C19", "RunParams", strs, shard=200, check_fn="pcheck", extra_imports="From Coq Require Import String.\nOpen Scope string_scope.\n")
     rng_n = C.make_rng(seed, "C19-nested")
     nstrs, nsumm = [], []
